@@ -221,7 +221,7 @@ def create_for_folder_subcommand(
     # traversing the file system, so this set will at the end contain the file paths not found in the file system
     not_found_paths = existing_history.set_of_file_paths()
     renamed_files = existing_history.renamed_path_with_previous_path()
-    not_found_paths = {p if renamed_files.get(p, None) is None else renamed_files[p] for p in not_found_paths}
+    not_found_paths = {_follow_renames(p, renamed_files) for p in not_found_paths}
     new_paths = set()
     missing_asc_mhl_folder = set()
 
@@ -616,7 +616,7 @@ def verify_entire_folder(
     # traversing the file system, so this set will at the end contain the file paths not found in the file system
     not_found_paths = existing_history.set_of_file_paths()
     renamed_files = existing_history.renamed_path_with_previous_path()
-    not_found_paths = {p if renamed_files.get(p, None) is None else renamed_files[p] for p in not_found_paths}
+    not_found_paths = {_follow_renames(p, renamed_files) for p in not_found_paths}
 
     num_failed_verifications = 0
     num_new_files = 0
@@ -1056,7 +1056,7 @@ def diff_entire_folder_against_full_history_subcommand(root_path, verbose, ignor
     # traversing the file system, so this set will at the end contain the file paths not found in the file system
     not_found_paths = existing_history.set_of_file_paths()
     renamed_files = existing_history.renamed_path_with_previous_path()
-    not_found_paths = {p if renamed_files.get(p, None) is None else renamed_files[p] for p in not_found_paths}
+    not_found_paths = {_follow_renames(p, renamed_files) for p in not_found_paths}
 
     num_failed_verifications = 0
     num_new_files = 0
@@ -1451,6 +1451,15 @@ def xsd_schema_check(file_path, directory_file, xsd_file):
         logger.error(f"ERROR: {file_path} didn't validate against XSD!")
         logger.info(f"Issues:\n{xsd.error_log}")
         raise errors.VerificationFailedException
+
+
+def _follow_renames(path, renamed_files):
+    """returns the current path of a recorded path, a file might have been renamed in several generations"""
+    seen = set()
+    while renamed_files.get(path, None) is not None and path not in seen:
+        seen.add(path)
+        path = renamed_files[path]
+    return path
 
 
 def test_for_missing_files(
